@@ -19,6 +19,7 @@ type Env struct {
 	depth  int
 	guard  string // guard under which side assumptions (map length axioms) are emitted
 	site    *ssa.BasicBlock // program point of the clause (name resolution)
+	pre     State // heap at loop entry (inside loop clauses)
 	loopOrd int   // ordinal of the loop whose header names are in scope (0: none)
 }
 
@@ -152,6 +153,17 @@ func (env *Env) eval(x Expr) Val {
 			c.st = env.old
 		}
 		return c.eval(n.X)
+	case *ECall:
+		if n.Fun == "pre" && len(n.Args) == 1 {
+			c := *env
+			if env.pre != nil {
+				c.st = env.pre
+			} else if env.old != nil {
+				c.st = env.old
+			}
+			return c.eval(n.Args[0])
+		}
+		return env.callSpec(n)
 	case *EUnary:
 		v := env.eval(n.X)
 		switch n.Op {
@@ -221,8 +233,6 @@ func (env *Env) eval(x Expr) Val {
 		fail("cannot index %s", v.Ty)
 	case *EBinary:
 		return env.binary(n)
-	case *ECall:
-		return env.callSpec(n)
 	case *EQuant:
 		return env.quant(n)
 	}
@@ -279,7 +289,7 @@ func (env *Env) binary(n *EBinary) Val {
 		set := env.asSet(m)
 		return Val{T: sx("select", set.T, k.T), Ty: tBool}
 	}
-	a, b := env.coerce(env.eval(n.X), env.eval(n.Y))
+	a, b := env.coerce(env.addrOf(env.eval(n.X)), env.addrOf(env.eval(n.Y)))
 	sa := env.sortOf(a)
 	switch sa {
 	case "Flt":
@@ -444,7 +454,7 @@ func (env *Env) callSpec(n *ECall) Val {
 		case *types.Basic:
 			return Val{T: sx("str.len", v.T), Ty: tInt}
 		case *types.Map:
-			return Val{T: sx("select", env.e.heapIn(env.st, MapLen), v.T), Ty: tInt}
+			return Val{T: env.e.mapLenIn(env.st, u.Key(), v.T), Ty: tInt}
 		case *types.Array:
 			return Val{T: fmt.Sprint(u.Len()), Ty: tInt}
 		}
@@ -494,6 +504,24 @@ func (env *Env) callSpec(n *ECall) Val {
 		r := a
 		r.T = ite(c.T, a.T, b.T)
 		return r
+	case "with":
+		// with(structValue, "Field", v): the struct with one field replaced
+		v := arg(0)
+		if _, ok := v.Ty.Underlying().(*types.Pointer); ok || v.Loc != nil {
+			v = env.deref(v)
+		}
+		fn, ok := n.Args[1].(*EStr)
+		st, ok2 := v.Ty.Underlying().(*types.Struct)
+		if !ok || !ok2 {
+			fail("with(struct, \"Field\", value) expected")
+		}
+		nv := arg(2)
+		for i := 0; i < st.NumFields(); i++ {
+			if st.Field(i).Name() == fn.V {
+				return Val{T: s.UpdateField(v.Ty, v.T, i, nv.T), Ty: v.Ty}
+			}
+		}
+		fail("no field %s", fn.V)
 	case "sref":
 		return Val{T: sx("sref", arg(0).T), Ty: tInt}
 	case "fresh":
@@ -508,6 +536,17 @@ func (env *Env) callSpec(n *ECall) Val {
 			old = env.e.initState
 		}
 		return Val{T: sx(">", t, env.e.heapIn(old, AllocVar)), Ty: tBool}
+	case "freshSincePre":
+		v := arg(0)
+		t := v.T
+		if env.sortOf(v) == "Slice" {
+			t = sx("sref", v.T)
+		}
+		st := env.pre
+		if st == nil {
+			st = env.e.initState
+		}
+		return Val{T: sx(">", t, env.e.heapIn(st, AllocVar)), Ty: tBool}
 	case "seqeq":
 		a, b := arg(0), arg(1)
 		st, ok := a.Ty.Underlying().(*types.Slice)
@@ -537,5 +576,34 @@ func (env *Env) toFloat(v Val) Val {
 	if env.sortOf(v) == "Int" {
 		return Val{T: sx("f.ofint", v.T), Ty: tFloat}
 	}
+	return v
+}
+
+// addrOf gives a derived address (field or element location) an integer identity so that it can be compared.
+func (env *Env) addrOf(v Val) Val {
+	if v.T != "" || v.Loc == nil {
+		return v
+	}
+	l := v.Loc
+	key := "addr"
+	args := []string{l.Ref}
+	sorts := []string{"Int"}
+	if l.Elem {
+		key += ".elem"
+		args = append(args, l.Idx)
+		sorts = append(sorts, "Int")
+	}
+	for _, s := range l.Path {
+		if s.Field >= 0 {
+			key += fmt.Sprintf(".f%d", s.Field)
+		} else {
+			key += ".ix"
+			args = append(args, s.Idx)
+			sorts = append(sorts, "Int")
+		}
+	}
+	t := env.e.W.UF(key+"."+sortID(env.e.sorts().SortOf(l.RootTy)), sorts, "Int", args...)
+	env.e.emit(fmt.Sprintf("(assert (not (= %s 0)))", t))
+	v.T = t
 	return v
 }
